@@ -172,6 +172,10 @@ def pairing_direct(ctx, obs, q, rule='PAIR'):
                     f'pattern indices: rows of prediction and data describe different conditions', where(prog, f, c.node))
             continue
         for s in sub:
+            if any(isinstance(x, ast.Starred) for x in s.args) or any(kw.arg is None for kw in s.keywords):
+                obs.unk(rule, q, 'prediction is sub-sampled by the pattern indices of the same draw as the sample',
+                        f'`{norm(s)[:70]}` passes its arguments through a starred sequence', where(prog, f, c.node))
+                continue
             args = list(s.args) + [kw.value for kw in s.keywords]
             val = args[1] if len(args) > 1 else None
             vc = _classify(val) if val is not None else None
